@@ -605,6 +605,7 @@ def run(ctx: Ctx):
     )
     check_config_discovery(ctx, "R18.c")
     check_discovery_only_without_path(ctx, "R18.c")
+    check_option_defaults_agree(ctx, "R18.c")
     for k_ in ("explicit-path-wins", "reads-path"):
         (ctx.ok if vd == "ok" else (lambda *a, **kw: None))("R18.c", rc.key(k_), "see ::table (the whole function equals the vetted value)", rc.where())
 
@@ -806,3 +807,33 @@ def check_missing_values_passed_on(ctx: Ctx, rule: str, shorts=("cli/gotran2py.p
             continue
         bad = [m for m in calls if not (m[3] and m[3][0] == ("sym", "missing_values")) and dict(m[4]).get("values") != ("sym", "missing_values")]
         ctx.check(not bad, rule, key, "codegen.missing_values(missing_values)", f"{short}::get_code calls the generator's missing_values with `{_av.show(bad[0][3][0] if bad and bad[0][3] else (bad[0] if bad else ''))[:120]}`, not with the mapping it was given: the slots the caller requested are replaced", g.where())
+
+
+def check_option_defaults_agree(ctx: Ctx, rule: str):
+    """Sibling agreement of defaults: an option a command declares with a literal default (`typer.Option(1e-8, ...)`) and
+    hands to a main that has a parameter of the same name with a literal default must use that same default - otherwise
+    the command line without the option and the library call without the argument (and the sibling commands, which
+    dispatch to mains with the same default) generate different code for the same model."""
+    n = 0
+    for cname, (cmd, calls, _log, _err) in dispatched_calls(ctx).items():
+        a = cmd.node.args
+        cdefs = dict(zip([x.arg for x in a.args][len(a.args) - len(a.defaults):], a.defaults))
+        cdefs.update({x.arg: d for x, d in zip(a.kwonlyargs, a.kw_defaults) if d is not None})
+        seen = set()
+        for _val, mm, _node in calls or []:
+            ma = mm.node.args
+            mdefs = dict(zip([x.arg for x in ma.args][len(ma.args) - len(ma.defaults):], ma.defaults))
+            mdefs.update({x.arg: d for x, d in zip(ma.kwonlyargs, ma.kw_defaults) if d is not None})
+            for pname, d in cdefs.items():
+                if pname in seen or pname not in mdefs or not isinstance(mdefs[pname], ast.Constant) or isinstance(mdefs[pname].value, (bool, type(None), str)):
+                    continue
+                opt = d
+                if isinstance(d, ast.Call) and (dotted(d.func) or "").split(".")[-1] in ("Option", "Argument"):
+                    opt = d.args[0] if d.args else call_kw(d, "default")
+                if not isinstance(opt, ast.Constant):
+                    continue
+                seen.add(pname)
+                n += 1
+                ctx.check(opt.value == mdefs[pname].value, rule, cmd.key(f"default::{pname}"), f"--{pname} defaults to {opt.value!r} like {mm.rel.split('/')[-1]}::{mm.name}", f"command `{cmd.name}` declares `{pname}` with default {opt.value!r} but {mm.rel.split('/')[-1]}::{mm.name} (and the library functions behind it) default to {mdefs[pname].value!r}: without the option the command generates other code than the library call and the sibling commands", cmd.where(d))
+    if not n:
+        ctx.undecided(rule, "src/gotranx/cli/__init__.py::defaults", "no command option with a literal numeric default that its main also has was found", "")
